@@ -550,6 +550,25 @@ def _impl_starship(case):
             'out': [_n(cal.get_sens(q)) for q in case['out']]}
 
 
+def _impl_psd_series(case):
+    """a spectrum labelled by util.psd_df handed to get_db(Series / DataFrame): the level of every bin is read at the
+    frequency of that bin (k * fs / n, odd and even n, with averaging)"""
+    from psiaudio import util
+    C = _cal()
+    n, fs, B = case['n'], case['fs'], case['B']
+    rs = np.random.RandomState(case['seed'])
+    x = np.sqrt(2) * np.cos(2 * np.pi * case['k'] * np.arange(n) / n + 0.3) + 0.05 * rs.uniform(-1, 1, n)
+    long = np.concatenate([x] * B)
+    cal = C.InterpCalibration(np.array(case['freqs']), np.array(case['sens']))
+    ser = util.psd_df(long, fs, waveform_averages=B if B > 1 else None, detrend=None)
+    frame = util.psd_df(np.stack([long, 2 * long]), fs, waveform_averages=B if B > 1 else None, detrend=None)
+    true_f = np.arange(n // 2 + 1) * fs / n
+    vals = util.psd(long, fs, waveform_averages=B if B > 1 else None, detrend=None)
+    return {'series': _nl(cal.get_db(ser).values), 'frame': _nl(cal.get_db(frame).values), 'labels': _nl(ser.index.values),
+            'want': [_n(cal.get_db(f, v)) for f, v in zip(true_f, vals)],
+            'want2': [_n(cal.get_db(f, 2 * v)) for f, v in zip(true_f, vals)], 'true_f': _nl(true_f)}
+
+
 def impl(case):
     import warnings
     with warnings.catch_warnings():
@@ -567,6 +586,8 @@ def _impl(case):
         return _impl_util(case)
     if k == 'starship':
         return _impl_starship(case)
+    if k == 'psd_series':
+        return _impl_psd_series(case)
     raise KeyError(k)
 
 
@@ -939,8 +960,23 @@ def _oracle_starship(case, res):
     return None
 
 
+def _oracle_psd_series(case, res):
+    tag = f"psd_df of {case['B']} x {case['n']} samples at fs {case['fs']} handed to get_db"
+    if not _closel(res['labels'], res['true_f'], 1e-12):
+        return f'{tag}: the bins are labelled {res["labels"][:3]} ... {res["labels"][-1]}, their frequencies are k fs / n: ... {res["true_f"][-1]}'
+    if not _closel(res['series'], res['want']):
+        i = [j for j, (a, b) in enumerate(zip(res['series'], res['want'])) if not _close(a, b)][0]
+        return (f'{tag}: get_db(Series) reads {res["series"][i]} dB at bin {i}, get_db(frequency of the bin = {res["true_f"][i]}, '
+                f'its value) = {res["want"][i]}')
+    if not _closel(res['frame'], res['want'] + res['want2']):
+        return f'{tag}: get_db(DataFrame) differs from get_db at the frequencies of the bins'
+    return None
+
+
 def oracle(case, res):
     k = case['kind']
+    if k == 'psd_series':
+        return _oracle_psd_series(case, res)
     if k in ('interp', 'point', 'flat'):
         return _oracle_lookup(case, res)
     if k == 'ctor':
@@ -1267,6 +1303,11 @@ def cases(tier, rng):
         yield _util_case(rng)
     for _ in range(6 if quick else 60):
         yield _starship_case(rng)
+    for n in ([15, 16, 33, 101] if quick else list(range(9, 70))):
+        fs = rng.choice([1000.0, 48000.0, 195312.5])
+        freqs = sorted({0.0, fs / 2} | {round(rng.uniform(0, fs / 2), 1) for _ in range(5)})
+        yield {'kind': 'psd_series', 'n': n, 'fs': fs, 'k': rng.randint(1, (n - 1) // 2), 'B': rng.choice([1, 2, 3]),
+               'seed': rng.randrange(1000), 'freqs': freqs, 'sens': [rng.uniform(70, 110) for _ in freqs]}
 
 
 def search(tier, rng):
